@@ -383,10 +383,14 @@ def ensure_declared_maps(ex, modifies):
                         pass
 
 
-def havoc(ex, fr, modifies, tag):
+def havoc(ex, fr, modifies, tag, base_alloc=None):
+    """havoc the declared frame.  Objects that were not allocated at `base_alloc` may change freely: for a call
+    that is the allocation state at the call, for a loop it is the state at *function entry* (objects the
+    function itself created before the loop are its own)."""
     ensure_declared_maps(ex, modifies)
     conds = mod_conditions(ex, fr, modifies)
     old_alloc = ex.alloc
+    esc_alloc = base_alloc if base_alloc is not None else old_alloc
     new_alloc = ex.fresh(f"ALLOC_{tag}", z3.ArraySort(REF, BOOL))
     o = z3.Const(f"o?{next(ex.cnt)}", REF)
     ex.assume(z3.ForAll([o], z3.Implies(old_alloc[o], new_alloc[o]), patterns=[old_alloc[o]]))
@@ -394,12 +398,14 @@ def havoc(ex, fr, modifies, tag):
     for key in sorted(ex.heap.keys()):
         field, sk = key
         cs = [c for (p, c) in conds if field_matches(p, field)]
-        if not cs:
+        if not cs and base_alloc is None:
             continue
+        if not cs and ex.heap[key].get_id() == ex.__dict__.get("_init_ids", {}).get(key):
+            continue      # never written so far: objects created by the function have not touched this map yet
         m = ex.heap[key]
         nm = ex.fresh(f"H_{field}_{tag}", m.sort())
         o = z3.Const(f"o?{next(ex.cnt)}", REF)
-        may = z3.Or([c(o) for c in cs] + [z3.Not(old_alloc[o])])
+        may = z3.Or([c(o) for c in cs] + [z3.Not(esc_alloc[o])])
         ex.assume(z3.ForAll([o], z3.Implies(z3.Not(may), nm[o] == m[o]), patterns=[nm[o]]))
         ex.heap[key] = nm
     ex.good_heap()
